@@ -11,7 +11,7 @@ Local Open Scope N_scope.
 (* Every sequence that is well-formed by table 3-7 of the Unicode Standard
    (= RFC 3629) is decoded by uv__utf8_decode1 to its scalar value, and the
    pointer advances by exactly its length, whatever follows it. *)
-Theorem C18_utf8_decode_sound_partial :
+Theorem C18_utf8_decode_sound :
   forall bs v rest, utf8_wf bs v ->
     utf8_decode1 (bs ++ rest) = (v, rest) /\ v <> UINT_MAX /\ scalar v.
 Proof.
@@ -19,7 +19,7 @@ Proof.
   pose proof (utf8_wf_scalar bs v W) as S. split; [|exact S].
   destruct S as [S _]. unfold UINT_MAX. lia.
 Qed.
-Print Assumptions C18_utf8_decode_sound_partial.
+Print Assumptions C18_utf8_decode_sound.
 
 (* the hypothesis is satisfiable: the euro sign and the last scalar value *)
 Example C18_utf8_wf_example :
@@ -32,30 +32,45 @@ Proof.
   - vm_compute. reflexivity.
 Qed.
 
-(* The full statement "accepts exactly the inputs that start with a well-formed
-   sequence" ([utf8_decode_iff_wellformed utf8_decode1]) does not hold for the
-   current code. *)
-Theorem C18_utf8_accepts_illformed_refuted :
+(* uv__utf8_decode1 accepts exactly the inputs that start with a well-formed
+   sequence (and then returns its scalar value and advances by its length, by
+   the theorem above): ill-formed UTF-8, truncated sequences included, is
+   rejected.  Holds since commit a779eb0. *)
+Theorem C18_utf8_decode_iff_wellformed :
+  forall s, s <> [] -> Forall byte s ->
+    (fst (utf8_decode1 s) <> UINT_MAX <-> utf8_wf_prefix s).
+Proof. exact utf8_decode1_iff_wellformed. Qed.
+Print Assumptions C18_utf8_decode_iff_wellformed.
+
+(* Host names: whenever uv__idna_toascii does not return an error, its input
+   was well-formed UTF-8 from the first byte to the last (so ill-formed input,
+   truncated sequences included, always ends in UV_EINVAL -- or in the
+   UV_E2BIG of an earlier label). *)
+Theorem C18_toascii_rejects_illformed :
+  forall s de, Forall byte s -> (0 <= fst (idna_toascii s de))%Z ->
+    exists cps, utf8_string s cps.
+Proof. exact toascii_rejects_illformed. Qed.
+Print Assumptions C18_toascii_rejects_illformed.
+
+(* the two witnesses of the old defect on the current model *)
+Example C18_utf8_illformed_rejected :
+  utf8_decode1 [228; 65; 65] = (UINT_MAX, []) /\
+  utf8_decode1 [241; 128; 128] = (UINT_MAX, []) /\
+  fst (idna_toascii [228; 65; 65; 46; 99; 111; 109] 256) = UV_EINVAL.
+Proof. repeat split; vm_compute; reflexivity. Qed.
+
+(* History: the decoder before commit a779eb0 ([utf8_decode1_before_a779eb0],
+   one xor for the three continuation bytes, truncated forms re-read as
+   shorter ones) did not satisfy the statement; the witnesses that the check
+   found, kept as regression cases in corpus/C18/idna_u8.txt. *)
+Theorem C18_utf8_before_a779eb0_accepted_illformed :
   (exists s, s <> [] /\ Forall byte s /\
-     ~ (fst (utf8_decode1 s) <> UINT_MAX <-> utf8_wf_prefix s)) /\
-  (utf8_decode1 [228; 65; 65] = (16449, []) /\ ~ utf8_wf_prefix [228; 65; 65]) /\
-  (utf8_decode1 [241; 128; 128] = (4096, []) /\ ~ utf8_wf_prefix [241; 128; 128]) /\
-  ~ utf8_decode_iff_wellformed utf8_decode1.
-Proof. exact utf8_accepts_illformed_refuted. Qed.
-Print Assumptions C18_utf8_accepts_illformed_refuted.
-
-(* The design-time probe: "\xE4AA.com" is converted to "xn--lln.com". *)
-Example C18_utf8_illformed_reaches_toascii :
-  let (rc, w) := idna_toascii [228; 65; 65; 46; 99; 111; 109] 256 in
-  rc = 12%Z /\ written w = [120; 110; 45; 45; 108; 108; 110; 46; 99; 111; 109; 0].
-Proof. vm_compute. split; reflexivity. Qed.
-
-(* With notes/C18_fix_utf8_decode.diff the full statement holds. *)
-Theorem C18_utf8_decode_iff_wellformed_after_fix :
-  utf8_decode_iff_wellformed utf8_decode1_fixed /\
-  (forall bs v rest, utf8_wf bs v -> utf8_decode1_fixed (bs ++ rest) = (v, rest)).
-Proof. split; [exact utf8_decode_fixed_iff_wellformed|exact utf8_decode_fixed_sound]. Qed.
-Print Assumptions C18_utf8_decode_iff_wellformed_after_fix.
+     ~ (fst (utf8_decode1_before_a779eb0 s) <> UINT_MAX <-> utf8_wf_prefix s)) /\
+  (utf8_decode1_before_a779eb0 [228; 65; 65] = (16449, []) /\ ~ utf8_wf_prefix [228; 65; 65]) /\
+  (utf8_decode1_before_a779eb0 [241; 128; 128] = (4096, []) /\ ~ utf8_wf_prefix [241; 128; 128]) /\
+  ~ utf8_decode_iff_wellformed utf8_decode1_before_a779eb0.
+Proof. exact utf8_before_a779eb0_accepts_illformed. Qed.
+Print Assumptions C18_utf8_before_a779eb0_accepted_illformed.
 
 (* ---- destination bound ------------------------------------------------ *)
 
@@ -187,43 +202,43 @@ Example C18_roundtrip_example :
   wtf8_of w = [65; 240; 159; 146; 169; 240; 144; 128; 128; 237; 176; 128; 237; 160; 128; 226; 130; 172].
 Proof. exact roundtrip_example. Qed.
 
-(* Lengths.  What holds: uv_utf16_length_as_wtf8 and both length-reporting
-   routes of uv_utf16_to_wtf8 (allocation, NULL target) give exactly the
-   number of bytes of the WTF-8 form, for counted strings (zeros allowed) and
-   NUL-terminated ones; and on every byte string that
-   uv_wtf8_length_as_utf16 accepts, uv_wtf8_to_utf16 stores exactly the
-   announced number of units. *)
-Theorem C18_lengths_exact_partial :
+(* Lengths are exact on every route.  For counted strings (zeros allowed) and
+   NUL-terminated ones: uv_utf16_length_as_wtf8, the allocating route and the
+   NULL-target route of uv_utf16_to_wtf8 give the number of bytes of the WTF-8
+   form [wtf8_of w]; with a caller's buffer of [cap] (+1) bytes the result is
+   everything when it fits, otherwise UV_ENOBUFS, exactly the first [cap] bytes
+   and a NUL (never more than cap+1 bytes), and the exact length needed.  On
+   every byte string that uv_wtf8_length_as_utf16 accepts, uv_wtf8_to_utf16
+   stores exactly the announced number of units and none of its asserts
+   fails. *)
+Theorem C18_lengths_exact :
   (forall w len, lenok len w -> Forall unit16 w ->
      utf16_length_as_wtf8 w len = N.of_nat (length (wtf8_of w)) /\
      utf16_to_wtf8 w len (TAlloc true) = (0%Z, wtf8_of w ++ [0], N.of_nat (length (wtf8_of w))) /\
-     utf16_to_wtf8 w len TNull = (0%Z, [], N.of_nat (length (wtf8_of w)))) /\
+     utf16_to_wtf8 w len TNull = (0%Z, [], N.of_nat (length (wtf8_of w))) /\
+     forall cap,
+       utf16_to_wtf8 w len (TBuf cap) =
+         if N.of_nat (length (wtf8_of w)) <=? cap
+         then (0%Z, wtf8_of w ++ [0], N.of_nat (length (wtf8_of w)))
+         else (UV_ENOBUFS, firstn (N.to_nat cap) (wtf8_of w) ++ [0], N.of_nat (length (wtf8_of w)))) /\
   (forall s n, wtf8_length_as_utf16 s = Some n ->
-     N.of_nat (length (fst (wtf8_to_utf16 s))) = n).
+     N.of_nat (length (fst (wtf8_to_utf16 s))) = n /\ snd (wtf8_to_utf16 s) = true).
 Proof.
   split.
   - intros w len HL HF. split; [exact (utf16_length_exact w len HL HF)|].
-    split; [exact (utf16_to_wtf8_alloc w len HL HF)|exact (utf16_to_wtf8_null w len HL HF)].
-  - exact wtf8_length_exact.
+    split; [exact (utf16_to_wtf8_alloc w len HL HF)|].
+    split; [exact (utf16_to_wtf8_null w len HL HF)|].
+    intros cap. exact (utf16_to_wtf8_buf w len cap HL HF).
+  - intros s n H. split; [exact (wtf8_length_exact s n H)|exact (wtf8_asserts_hold s n H)].
 Qed.
-Print Assumptions C18_lengths_exact_partial.
+Print Assumptions C18_lengths_exact.
 
-(* What does not hold (the full C18_lengths_exact would also say that
-   UV_ENOBUFS comes with the exact length): a caller's buffer that ends inside
-   the first character. *)
-Theorem C18_lengths_exact_enobufs_refuted :
-  exists w cap,
-    Forall nz16 w /\
-    utf16_length_as_wtf8 w (Z.of_nat (length w)) = 2 /\
-    utf16_to_wtf8 w (Z.of_nat (length w)) (TBuf cap) = (UV_ENOBUFS, [195; 0], 3).
-Proof. exact utf16_to_wtf8_enobufs_length_refuted. Qed.
-Print Assumptions C18_lengths_exact_enobufs_refuted.
-
-(* assert(code_point < 0x10FFFF) of uv_wtf8_to_utf16 fails on the round trip
-   of DBFF DFFF (U+10FFFF) in builds that keep asserts. *)
-Theorem C18_wtf8_to_utf16_assert_refuted :
-  exists w, Forall nz16 w /\
-    fst (fst (utf16_to_wtf8 w (Z.of_nat (length w)) (TAlloc true))) = 0%Z /\
-    snd (wtf8_to_utf16 (wtf8_of w)) = false.
-Proof. exact wtf8_to_utf16_assert_refuted. Qed.
-Print Assumptions C18_wtf8_to_utf16_assert_refuted.
+(* History: before commits 0064931 and 8661803 U+00E9 into a buffer of one byte
+   gave UV_ENOBUFS with length 3 (exact: 2), and assert(code_point < 0x10FFFF)
+   failed on F4 8F BF BF.  The same inputs now (regression cases in
+   corpus/C18/idna_w16.txt): *)
+Example C18_lengths_regression :
+  utf16_to_wtf8 [233] 1%Z (TBuf 1) = (UV_ENOBUFS, [195; 0], 2) /\
+  utf16_to_wtf8 [55296] 1%Z (TBuf 2) = (UV_ENOBUFS, [237; 160; 0], 3) /\
+  snd (wtf8_to_utf16 [244; 143; 191; 191]) = true.
+Proof. exact enobufs_length_regression. Qed.
